@@ -76,8 +76,8 @@ CLAIMS['C07'] = ('index arithmetic of the byte buffer decided by linear constant
                  'merges): 0 <= read <= write <= size re-established on every path class of every index-writing method; every internal memcpy/memmove inside source '
                  'and destination bounds, reading exactly the source\'s readable window, with exit indices denoting exactly the copied bytes; ensureWritableSize '
                  'postcondition (room >= n, readable length unchanged); append/fetch reserve-copy-commit and min-copy-consume shapes; copy independence incl. self-assignment alias safety; strong guarantee on allocation failure (nothing released or overwritten before a throwing new[]); postconditions of the primitives (hasWritten/hasRead/hasReadAll, the four accessors); no unsigned wrap-around in any sum, doubling or difference (the assumption under which the proofs reason over the integers, discharged per operation). FIFO equality of contents decided for every history of up to 4 (thorough: 6) operations over a grid of sizes and capacities by replaying the syntax trees of util::Buffer against a reference queue, every byte a marker of its own (window contents, fetch results, copy independence, moved-from emptiness, no access outside a block or to deleted storage); for longer histories it rests on the per-operation proofs above'
-                 'of contents as a history property stays undecided', '§10.6 (replaces the not-applicable of §5)',
-                 'linear (affine) constant propagation + sign decision over chain slacks, on the clang CFG')
+                 '', '§10.6 (replaces the not-applicable of §5)',
+                 'linear (affine) constant propagation + sign decision over chain slacks, on the clang CFG; abstract replay of short histories over byte provenance')
 FOLDING = {'C02', 'C03', 'C04', 'C05', 'C06', 'C08', 'C09', 'C10', 'C12', 'C13', 'C14', 'C15', 'C17', 'C18', 'C19', 'C20'}
 NA = {
  'C07_old': 'every clause is value-level (byte equality, index arithmetic of the three-way space policy): needs a relational numeric domain or a solver, '
